@@ -418,10 +418,17 @@ def r084(an, rep, rule="R08.4", nan_sign_matters=False):
             ks = [refkey(x) for x in v]
             return ("frozenset", frozenset((k, ks.count(k)) for k in ks))
         return (type(v).__name__, v)
-    try:
-        keys = [(nm, pe.call(kf.node, v), refkey(v)) for nm, v in W]
-    except FevalError as ex:
-        raise AnalysisError(f"{kf.qual}: key function not evaluable on witness constants: {ex}")
+    W += [("10**400", 10 ** 400), ("-10**400", -10 ** 400), ("(10**400,)", (10 ** 400,))]  # ints have no size limit (floats do: math.isnan(10**400) overflows)
+    keys = []
+    for nm, v in W:
+        try:
+            keys.append((nm, pe.call(kf.node, v), refkey(v)))
+        except FevalError as ex:
+            raise AnalysisError(f"{kf.qual}: key function not evaluable on witness constants: {ex}")
+        except (OverflowError, ValueError, ArithmeticError, TypeError) as ex:
+            rep.add(rule, f"{kf.qual}::the key function is defined on the constant {nm}", False, loc(kf.module, kf.node),
+                    f"the key function raises {type(ex).__name__} ({str(ex)[:50]}) on the constant {nm}: a program holding such a constant cannot be decoded, compared or encoded "
+                    f"(an integer literal of more than 308 digits passes through a float-only test)")
     badpairs = []
     for i in range(len(keys)):
         for j in range(i + 1, len(keys)):
